@@ -99,6 +99,23 @@ impl NamespaceStates {
         state.accept_request(me, &node)
     }
 
+    /// Returns true if the state for this node is a running sync that we initiated ourselves.
+    pub fn is_connecting(&self, namespace: &NamespaceId, node: &EndpointId) -> bool {
+        self.0
+            .get(namespace)
+            .and_then(|state| state.nodes.get(node))
+            .map(|peer| {
+                matches!(
+                    peer.state,
+                    SyncState::Running {
+                        origin: Origin::Connect(_),
+                        ..
+                    }
+                )
+            })
+            .unwrap_or(false)
+    }
+
     /// Insert a finished sync operation into the state.
     ///
     /// Returns the time when the operation was started, and a `bool` that is true if another sync
